@@ -29,9 +29,9 @@ RULE = ("seeded random models (grammar of C01 incl. inheritance, nesting, ItemSp
 ASSUMPTIONS = ["ItemSpace contents are not definitions; only static inputs are part of the snapshot",
                "new_cells with an invalid name is documented to fall back to an automatic name: judged by the name "
                "invariant, not as a rejection"]
-MIN_COUNTERS = {"quick": {"rejected_ops": 3000, "snapshots_compared": 3000, "values_compared": 70000,
+MIN_COUNTERS = {"quick": {"rejected_ops": 1500, "snapshots_compared": 1500, "values_compared": 40000,
                           "invariant_checks": 800, "kinds_rejected": 40},
-                "thorough": {"rejected_ops": 150000, "snapshots_compared": 150000, "values_compared": 3000000,
+                "thorough": {"rejected_ops": 50000, "snapshots_compared": 50000, "values_compared": 1200000,
                              "invariant_checks": 30000, "kinds_rejected": 45}}
 SHARD_TIMEOUT = {"quick": 900, "thorough": 5400}
 
